@@ -90,16 +90,11 @@ func (v *Val) canon(sb *strings.Builder) {
 	case KString:
 		writeBytes(sb, "str", v.B)
 	case KBinary:
-		if v.Nil {
-			sb.WriteString("bin(nil)")
-		} else {
-			writeBytes(sb, "bin", v.B)
-		}
+		// a nil and an empty byte slice / list / set / map are both "empty": no property pins which of
+		// the two a decoder produces, so the canonical form does not distinguish them (the encoder side,
+		// where nil decides omission of optional fields, looks at Val.Nil directly)
+		writeBytes(sb, "bin", v.B)
 	case KList, KSet:
-		if v.Nil {
-			sb.WriteString(v.K.String() + "(nil)")
-			return
-		}
 		sb.WriteString(v.K.String() + "[")
 		for i, e := range v.L {
 			if i > 0 {
@@ -109,10 +104,6 @@ func (v *Val) canon(sb *strings.Builder) {
 		}
 		sb.WriteString("]")
 	case KMap:
-		if v.Nil {
-			sb.WriteString("map(nil)")
-			return
-		}
 		ents := make([]string, len(v.M))
 		for i, e := range v.M {
 			var eb strings.Builder
